@@ -110,7 +110,7 @@ func process(j *job) {
 			for i := range j.viol {
 				if j.viol[i].sub == "" {
 					j.viol[i].sub = tr
-				} else if tr != "" && (j.viol[i].class == "capture-changes-outcome" || j.viol[i].class == "range-missing") && !strings.Contains(j.viol[i].sub, "@") {
+				} else if tr != "" && (j.viol[i].class == "capture-changes-outcome" || j.viol[i].class == "capture-changes-statement" || j.viol[i].class == "range-missing") && !strings.Contains(j.viol[i].sub, "@") {
 					j.viol[i].sub += "@" + tr
 				}
 			}
